@@ -7,6 +7,12 @@
 
 package cla
 
+import (
+	"fmt"
+	"sort"
+	"sync"
+)
+
 // SimHook is set by the deterministic-simulation harness (build tag "verif" only).
 var SimHook func(point, key string)
 
@@ -32,4 +38,22 @@ func simOrderReceivers(crs []ConvergenceReceiver) []ConvergenceReceiver {
 		return f(crs)
 	}
 	return crs
+}
+
+// simRangeConvs visits the entries of the manager's table in the order of their keys (addresses), so that the
+// harness owns what sync.Map.Range leaves to chance. Entries deleted meanwhile are skipped, like Range may do.
+func simRangeConvs(m *sync.Map, f func(key, value interface{}) bool) {
+	var keys []interface{}
+	m.Range(func(k, _ interface{}) bool {
+		keys = append(keys, k)
+		return true
+	})
+	sort.SliceStable(keys, func(i, j int) bool { return fmt.Sprint(keys[i]) < fmt.Sprint(keys[j]) })
+	for _, k := range keys {
+		if v, ok := m.Load(k); ok {
+			if !f(k, v) {
+				return
+			}
+		}
+	}
 }
